@@ -83,6 +83,8 @@ int _mzd_pluq_solve_left(mzd_t const *A, rci_t rank, mzp_t const *P, mzp_t const
     mzd_t *Y2      = mzd_init_window(B, rank, 0, A->nrows, B->ncols);
     if (A->nrows < B->nrows) {
       mzd_t *Y3 = mzd_init_window(B, A->nrows, 0, B->nrows, B->ncols);
+      /* A is implicitly padded with zero rows: a non-zero padding row of B cannot be matched */
+      if (!mzd_is_zero(Y3)) { retval = -1; }
       mzd_set_ui(Y3, 0);
       mzd_free_window(Y3);
     }
